@@ -106,6 +106,7 @@ def check_property(pid, tier, keep=False):
     scratch = tempfile.mkdtemp(prefix="verif-%s-" % pid)
     violations, undecided, notes, known_hits = [], [], [], []
     bounded_runs = []
+    fallback_tried, undecided_units = set(), []
     cov_functions, rewrite_log, breakdown, trusted, cmds, clauses = [], [], [], {}, [], {}
     cov_types = []
     unref = [0]
@@ -120,6 +121,8 @@ def check_property(pid, tier, keep=False):
                 b = U.build_unit(uname, scratch)
             except U.UnitError as e:
                 undecided.append("%s: %s" % (uname, e))
+                fallback_tried.add(uname)
+                undecided_units.append((uname, [str(e)]))
                 v = finder_fallback(pid, uname, [str(e)], scratch, spec)
                 if v:
                     violations.append(v)
@@ -198,6 +201,8 @@ def check_property(pid, tier, keep=False):
                 else:
                     notes.append("obligation of %s failed (not attributed to %s): %s" % (",".join(f["props"]), pid, f["obligation"]))
             if und and not [f for f in failures if pid in f["props"]]:
+                fallback_tried.add(uname)
+                undecided_units.append((uname, und))
                 v = finder_fallback(pid, uname, und, scratch, spec, b)
                 if v:
                     violations.append(v)
@@ -212,6 +217,17 @@ def check_property(pid, tier, keep=False):
                         continue
                     path = write_replay(pid, v, v.get("cmd", ""), b, {"failing_input": v.get("input"), "finder": v})
                     violations.append((v, path, True))
+        # A change in a helper (say is_path_prefix, unit index) shows through the functions that use it (analyze_change, unit analyze):
+        # when a unit of this property is undecided and its own finder saw nothing, the finders of the property's other units get a turn
+        if undecided_units and not violations:
+            for other in spec["units"]:
+                if other in fallback_tried:
+                    continue
+                fallback_tried.add(other)
+                v = finder_fallback(pid, other, ["unit %s undecided: %s" % (undecided_units[0][0], "; ".join(undecided_units[0][1])[:200])], scratch, spec)
+                if v:
+                    violations.append(v)
+                    break
         # Bounded stand-ins (labelled bounded, never counted as proved): functions the property depends on that are not within the
         # verifier's reach are exercised on every run - the real compiled code against the executable form of the statement.
         for bc in spec.get("bounded_checks", []):
